@@ -1,7 +1,7 @@
 """Theta / Tuple structural rules (C01, C02, C13): strict screens, theta writers, pivot agreement, ordered-only
 shortcuts, emptiness, duplicate suppression, builder/reset agreement, seed checks."""
 import re
-from astu import C, ctxt, gt_pair, eq_const, strip, strip_all, walk, walkp, txt, short, is_this_field, field_name, local_decls, stmts_of, always_exits, functions_by
+from astu import C, ctxt, gt_pair, eq_const, reach, reach_txt, ctext, strip, strip_all, walk, walkp, txt, short, is_this_field, field_name, local_decls, stmts_of, always_exits, functions_by
 from vlib.core import ob
 
 class _U64:
@@ -445,20 +445,15 @@ def rebuild_precondition(facts):
             if n.get("k") == "Call" and n.get("cname") == "rebuild" and (n.get("crec") or "").endswith("theta_update_sketch_base"):
                 key = "theta_update_sketch_base::%s:rebuild-precondition#%d" % (fn["name"], idx[0])
                 idx[0] += 1
-                conds = []
-                chain = list(parents) + [n]
-                for i, p in enumerate(chain[:-1]):
-                    if p.get("k") == "If" and (p.get("t") is chain[i + 1] or p.get("e") is chain[i + 1]):
-                        conds.append((strip(p["c"]), p.get("t") is chain[i + 1]))
                 ok = False
                 seen = []
-                for c, in_then in conds:
-                    if c.get("k") == "Bin" and c.get("op") in (">", ">=", "<", "<=") and in_then:
-                        l, r = txt(c["l"]), txt(c["r"])
+                # every comparison known to hold at the call (nested ifs, guard clauses, else branches alike)
+                for c in reach(fn["body"], n):
+                    g = gt_pair(c)
+                    if g:
                         seen.append(txt(c))
-                        if l == "num_entries_" and c["op"] == ">" and ("lg_nom_size_" in r or "get_capacity(" in r):
-                            ok = True
-                        if r == "num_entries_" and c["op"] == "<" and ("lg_nom_size_" in l or "get_capacity(" in l):
+                        big, small = txt(g[0]), txt(g[1])
+                        if big == "num_entries_" and g[2] and ("lg_nom_size_" in small or "get_capacity(" in small):
                             ok = True
                 if ok:
                     out.append(ob("theta.rebuild-pre", key, n["loc"], "discharged", "rebuild() only when %s" % seen[0], fn["qname"]))
